@@ -349,7 +349,7 @@ template<class T, size_t N> void g_randview() {
         Tensor<int,K> idx; for (size_t k = 0; k < K; ++k) idx(k) = (int)((k * 2) % N); idx(K - 1) = (int)N - 1;
         Tensor<T,K> g = a(idx); sink(g.data(), sizeof(T) * K);
         sink_val(sum(a(idx)));
-        a(idx) += T(1); a(idx) = T(3); }, VG_SEED, 0u, alignof(TT));
+        a(idx) += T(1); a(idx) = T(3); a(idx) = g; a(idx) += g; a(idx) *= g + g; }, VG_SEED, 0u, alignof(TT));
     VG_DESC("randview T=%s N=%zu", TN, N); print_report(desc, r);
 }
 template<class T, size_t M, size_t N> void g_randview2d() {
@@ -370,7 +370,7 @@ template<class T, size_t N> void g_filterview() {
     auto r = sweep<T>(ops, 2, [](T* const* p) {
         TT& a = *reinterpret_cast<TT*>(p[0]); const TT& b = *reinterpret_cast<const TT*>(p[1]);
         Tensor<bool,N> mask; for (size_t k = 0; k < N; ++k) mask(k) = (k % 3 != 1); mask(N - 1) = true;
-        a(mask) = T(4); a(mask) += b; a(mask) *= T(2);
+        a(mask) = T(4); a(mask) += b; a(mask) *= T(2); a(mask) = b; a(mask) -= b + b;
         Tensor<T,N> t = a(mask); sink(t.data(), sizeof(T) * N); }, VG_SEED, 0u, alignof(TT));
     VG_DESC("filterview T=%s N=%zu", TN, N); print_report(desc, r);
 }
